@@ -10,6 +10,23 @@ import MdIt.Model.Lines
 
 namespace MdIt.Lines
 
+instance {ε α : Type} [DecidableEq ε] [DecidableEq α] : DecidableEq (Except ε α) := fun a b =>
+  match a, b with
+  | .ok x, .ok y => if h : x = y then isTrue (by rw [h]) else isFalse (fun h' => by cases h'; exact h rfl)
+  | .error x, .error y =>
+    if h : x = y then isTrue (by rw [h]) else isFalse (fun h' => by cases h'; exact h rfl)
+  | .ok _, .error _ => isFalse (fun h => by cases h)
+  | .error _, .ok _ => isFalse (fun h => by cases h)
+
+theorem map_inj_of_injective {α β : Type} {f : α → β} (hf : Function.Injective f) :
+    ∀ {a b : List α}, a.map f = b.map f → a = b
+  | [], [], _ => rfl
+  | [], _ :: _, h => by simp at h
+  | _ :: _, [], h => by simp at h
+  | x :: a, y :: b, h => by
+    simp only [List.map_cons, List.cons.injEq] at h
+    rw [hf h.1, map_inj_of_injective hf h.2]
+
 /-! ### 1. bytes and slices -/
 
 theorem utf8Size_pos' (c : Char) : 0 < c.utf8Size := Char.utf8Size_pos c
